@@ -29,7 +29,7 @@ def estimate_total(measurements):
     estimates = np.array([])
     for Q, y, noise, proj in measurements:
         o = np.ones(Q.shape[1])
-        v = lsmr(Q.T, o, atol=0, btol=0)[0]
+        v = lsmr(Q.T, o, atol=0, btol=0, maxiter=4*max(Q.shape)+10)[0]
         if np.allclose(Q.T.dot(v), o):
             variances = np.append(variances, noise**2 * np.dot(v, v))
             estimates = np.append(estimates, np.dot(v, y))
